@@ -371,6 +371,8 @@ func nominalLen(v Value) (int, bool) {
 		return 33, true
 	case "pubx", "puby", "pubyT":
 		return 32, true
+	case "pubyS":
+		return 31, true
 	case "privraw":
 		return 32, true
 	case "cidbytes":
@@ -508,4 +510,51 @@ func (in *Interp) keyFromParts(v Value) (*keySt, bool) {
 		}
 	}
 	return nil, false
+}
+
+// bigCoord is a coordinate of a parsed public key as a *big.Int: only Bytes() is modelled. big.Int.Bytes() is
+// the minimal big-endian form: a coordinate whose leading byte is zero (one key in 256) comes out one byte short;
+// yShort(k) is that event for Y as a symbolic boolean per key (shorter still is not modelled: one in 65536).
+type bigCoord struct {
+	k     int
+	which string
+}
+
+func (in *Interp) yShort(k int) *smt.Term { return in.Ctx.Var(fmt.Sprintf("yshort_k%d", k), 0) }
+
+func init() {
+	intrinsics["(*math/big.Int).Bytes"] = func(in *Interp, fr *Frame, a []Value) (Value, bool) {
+		if a[0].R == nil {
+			return declined()
+		}
+		cell, ok := a[0].R.(*Value)
+		if !ok || cell.K != KOpaque {
+			return declined()
+		}
+		bc, ok := cell.R.(*bigCoord)
+		if !ok {
+			return declined()
+		}
+		if bc.which == "X" {
+			return opqBytes(ot("pubx", bc.k)), true // (a leading zero byte of X is not modelled)
+		}
+		if in.Branch(in.yShort(bc.k), "leading byte of Y is zero") {
+			return opqBytes(ot("pubyS", bc.k)), true
+		}
+		return opqBytes(ot("puby", bc.k)), true
+	}
+}
+
+// normKeyCells collapses 04 ‖ X(k) ‖ Y(k) assembled from its parts into the one chunk pubuncomp(k), so that a key
+// rebuilt by hand equals the key serialised by the library.
+func normKeyCells(s []Value) []Value {
+	if len(s) != 3 || s[0].K == KOpaque || s[0].R != nil || s[0].N != 4 || s[1].K != KOpaque || s[2].K != KOpaque {
+		return s
+	}
+	x, ok1 := s[1].R.(*OpaqueBytes)
+	y, ok2 := s[2].R.(*OpaqueBytes)
+	if !ok1 || !ok2 || x.T == nil || y.T == nil || x.T.Ctor != "pubx" || y.T.Ctor != "puby" || x.T.Args[0].(int) != y.T.Args[0].(int) {
+		return s
+	}
+	return []Value{{K: KOpaque, R: &OpaqueBytes{T: ot("pubuncomp", x.T.Args[0].(int))}}}
 }
